@@ -196,6 +196,10 @@ def run(ctx, config='rel-all'):
         else:
             ctx.violation('O2', arena.short(roles['Allocator::grow']), 'in-place:missing', 'grow has no in-place extension path through the bumping function')
     copy_discipline(ctx, A, roles, specs, 'R3', 7)
+    check_err_untouched(ctx, db, config, roles, 'R4')
+
+
+def check_err_untouched(ctx, db, config, roles, RULE='R4'):
     # ---- R4 error leaves the block untouched
     for key, callee in roles.items():
         b = db.by_path.get(callee)
@@ -217,9 +221,16 @@ def run(ctx, config='rel-all'):
             if len(e.stack) == 1 and (e.kind == 'copy' or (e.kind == 'store' and arena.footer_field(e))):
                 if g.reach([e.block]) & fail_blocks:
                     bad += 1
-                    ctx.violation('R4', arena.short(callee), 'effect-then-Err', 'a %s is followed by a path that returns Err: the caller still owns the original block, which may have been moved or clobbered' % e.kind, e.span)
+                    ctx.violation(RULE, arena.short(callee), 'effect-then-Err', 'a %s is followed by a path that returns Err: the caller still owns the original block, which may have been moved or clobbered' % e.kind, e.span)
+            elif len(e.stack) > 1 and e.kind == 'store' and arena.footer_field(e) and arena.footer_field(e)[1] == 'ptr':
+                # a finger store in an inlined callee that *releases* memory (raises the finger): the caller's block is given up
+                cls = arena.classify_finger_store(J, r, e)
+                if cls in ('RECLAIM', 'SAVED', 'EMPTY', 'FULL', 'OTHER') or cls.startswith('MIXED'):
+                    if g.reach([e.stack[1][1]]) & fail_blocks:
+                        bad += 1
+                        ctx.violation(RULE, arena.short(callee), 'release-then-Err', 'the block is released (%s finger store in %s) on a path that can still return Err: on failure the caller keeps a block the arena will hand out again' % (cls, arena.short(arena.innermost(e))), e.span)
         if not bad:
-            ctx.ok('R4', '%s: no own store/copy can be followed by an Err return (%d failure blocks)' % (arena.short(callee), len(fail_blocks)), 'CFG reachability')
+            ctx.ok(RULE, '%s: no own store/copy can be followed by an Err return (%d failure blocks)' % (arena.short(callee), len(fail_blocks)), 'CFG reachability')
 
 
 def copy_discipline(ctx, A, roles, specs, RULE_NAME, floor):
